@@ -2,16 +2,20 @@ module verifmc
 
 go 1.21
 
-require go.brendoncarroll.net/p2p v0.0.0
+require (
+	go.brendoncarroll.net/p2p v0.0.0
+	golang.org/x/crypto v0.9.0
+)
 
 require (
 	github.com/davecgh/go-spew v1.1.1 // indirect
 	github.com/flynn/noise v1.0.0 // indirect
 	github.com/golang/protobuf v1.5.3 // indirect
 	github.com/pmezard/go-difflib v1.0.0 // indirect
+	github.com/quic-go/quic-go v0.37.4 // indirect
 	github.com/stretchr/testify v1.8.4 // indirect
 	go.brendoncarroll.net/exp v0.0.0-20241118183830-280772e567eb // indirect
-	golang.org/x/crypto v0.9.0 // indirect
+	golang.org/x/net v0.10.0 // indirect
 	golang.org/x/sync v0.2.0 // indirect
 	golang.org/x/sys v0.8.0 // indirect
 	golang.zx2c4.com/wireguard v0.0.0-20220920152132-bb719d3a6e2c // indirect
